@@ -85,7 +85,7 @@ unsafe impl<T: Probe + 'static> CastFrom<T> for dyn Probe {
     }
 }
 
-pub trait Tracked: Resource + Probe + Default + Sized {
+pub trait Tracked: Resource + Probe + Sized {
     const CI: usize;
     fn make(ident: u32, p: i64) -> Self;
 }
@@ -167,7 +167,48 @@ probe_impl!(RC, 2, |s: &RC| s.v[3], |s: &mut RC, p| s.v[3] = p, |i, p| RC {
 });
 probe_impl!(RD, 3, |s: &RD| s.p, |s: &mut RD, p| s.p = p, |i, p| RD { canary: 0, h: Handle { ident: i }, p });
 
-pub const NCONC: usize = 4;
+/// The fifth resource type is `Box<dyn Resource>` ITSELF (a legal resource type: it is
+/// `Any + Send + Sync`), holding a boxed `REInner`.  It has no `Default`, so it takes part in
+/// everything except the `Read` / `Write` members of system-data shapes (their setup needs
+/// `T: Default`); the `Option` forms are fine.
+pub type RE = Box<dyn Resource>;
+pub struct REInner {
+    p: i64,
+    h: Handle,
+    canary: u64,
+}
+fn re_inner(b: &RE) -> &REInner {
+    (**b).downcast_ref::<REInner>().expect("harness: a Box<dyn Resource> resource of the harness holds an REInner")
+}
+fn re_inner_mut(b: &mut RE) -> &mut REInner {
+    (**b).downcast_mut::<REInner>().expect("harness: a Box<dyn Resource> resource of the harness holds an REInner")
+}
+impl Probe for RE {
+    fn tag(&self) -> usize {
+        4
+    }
+    fn get(&self) -> (i64, u32) {
+        let i = re_inner(self);
+        (i.p, i.h.ident)
+    }
+    fn set(&mut self, p: i64) {
+        re_inner_mut(self).p = p
+    }
+    fn canary(&self) -> u64 {
+        unsafe { std::ptr::read_volatile(&re_inner(self).canary) }
+    }
+    fn set_canary(&mut self, v: u64) {
+        unsafe { std::ptr::write_volatile(&mut re_inner_mut(self).canary, v) }
+    }
+}
+impl Tracked for RE {
+    const CI: usize = 4;
+    fn make(ident: u32, p: i64) -> Self {
+        Box::new(REInner { p, h: Handle { ident }, canary: 0 })
+    }
+}
+
+pub const NCONC: usize = 5;
 
 macro_rules! with_ty {
     ($ci:expr, $T:ident => $body:expr) => {
@@ -184,34 +225,62 @@ macro_rules! with_ty {
                 type $T = RC;
                 $body
             }
-            _ => {
+            3 => {
                 type $T = RD;
+                $body
+            }
+            _ => {
+                type $T = RE;
                 $body
             }
         }
     };
 }
 
+macro_rules! with_ty4 {
+    ($ci:expr, $T:ident => $body:expr) => {
+        match $ci {
+            0 => {
+                type $T = RA;
+                $body
+            }
+            1 => {
+                type $T = RB;
+                $body
+            }
+            2 => {
+                type $T = RC;
+                $body
+            }
+            3 => {
+                type $T = RD;
+                $body
+            }
+            _ => panic!("harness: Box<dyn Resource> has no Default, it cannot be a Read / Write member"),
+        }
+    };
+}
+
 macro_rules! with_member {
     ($k:expr, $ci:expr, $M:ident => $body:expr) => {
-        with_ty!($ci, TT => match $k {
-            "read" => {
+        match $k {
+            "read" => with_ty4!($ci, TT => {
                 type $M = Read<'static, TT>;
                 $body
-            }
-            "write" => {
+            }),
+            "write" => with_ty4!($ci, TT => {
                 type $M = Write<'static, TT>;
                 $body
-            }
-            "optread" => {
+            }),
+            "optread" => with_ty!($ci, TT => {
                 type $M = Option<Read<'static, TT>>;
                 $body
-            }
-            _ => {
+            }),
+            _ => with_ty!($ci, TT => {
                 type $M = Option<Write<'static, TT>>;
                 $body
-            }
-        })
+            }),
+        }
     };
 }
 
@@ -224,6 +293,8 @@ fn conc_of_typeid(t: TypeId) -> Option<usize> {
         Some(2)
     } else if t == TypeId::of::<RD>() {
         Some(3)
+    } else if t == TypeId::of::<RE>() {
+        Some(4)
     } else {
         None
     }
@@ -355,7 +426,7 @@ pub trait Member: SystemData<'static> {
     fn peek(&self) -> Option<(usize, i64, u32)>;
     fn poke(&mut self, p: i64);
 }
-impl<T: Tracked> Member for Read<'static, T> {
+impl<T: Tracked + Default> Member for Read<'static, T> {
     fn into_guard(self) -> Option<(Box<dyn AnyGuard>, char)> {
         Some((Box::new(self), 'r'))
     }
@@ -364,7 +435,7 @@ impl<T: Tracked> Member for Read<'static, T> {
     }
     fn poke(&mut self, _: i64) {}
 }
-impl<T: Tracked> Member for Write<'static, T> {
+impl<T: Tracked + Default> Member for Write<'static, T> {
     fn into_guard(self) -> Option<(Box<dyn AnyGuard>, char)> {
         Some((Box::new(self), 'w'))
     }
@@ -525,6 +596,8 @@ pub struct Driver {
     meta: *mut MetaTable<dyn Probe>,
     /// set when continuing would be undefined behaviour inside the harness
     pub abort: Option<String>,
+    ctor_state: u64,
+    last_ctor: u32,
 }
 
 impl Drop for Driver {
@@ -555,7 +628,10 @@ impl Driver {
         for &ci in &tymap {
             with_ty!(ci, T => meta.register::<T>());
         }
-        Driver { world: Box::into_raw(Box::new(World::empty())), table: BTreeMap::new(), tymap, dynmap, meta: Box::into_raw(Box::new(meta)), abort: None }
+        Driver { world: Box::into_raw(Box::new(World::empty())), table: BTreeMap::new(), tymap, dynmap, meta: Box::into_raw(Box::new(meta)), abort: None, ctor_state: 0x9E3779B97F4A7C15, last_ctor: 0 }
+    }
+    pub fn seed_ctors(&mut self, seed: u64) {
+        self.ctor_state = seed | 1;
     }
     pub fn ntypes(&self) -> u32 {
         self.tymap.len() as u32
@@ -576,6 +652,23 @@ impl Driver {
     }
     fn abs(&self, ci: usize) -> i64 {
         self.tymap.iter().position(|&c| c == ci).map(|k| k as i64 + 1).unwrap_or(-1)
+    }
+    /// The id of (ty, dy) built through a seed-chosen public constructor (all of them must
+    /// denote the same resource): new / new_with_dynamic_id / from_type_id /
+    /// from_type_id_and_dynamic_id.  Used for the id ARGUMENT of every by-id call.
+    pub fn rid_any(&mut self, ty: u32, dy: u32) -> ResourceId {
+        self.ctor_state = self.ctor_state.wrapping_mul(6364136223846793005).wrapping_add(1442695040888963407);
+        let pick = (self.ctor_state >> 33) % 4;
+        let d = self.dynmap[dy as usize];
+        self.last_ctor = pick as u32;
+        with_ty!(self.ci(ty), T => match pick {
+            0 => ResourceId::new_with_dynamic_id::<T>(d),
+            1 => ResourceId::from_type_id_and_dynamic_id(TypeId::of::<T>(), d),
+            2 if d == 0 => ResourceId::new::<T>(),
+            3 if d == 0 => ResourceId::from_type_id(TypeId::of::<T>()),
+            2 => ResourceId::from_type_id_and_dynamic_id(TypeId::of::<T>(), d),
+            _ => ResourceId::new_with_dynamic_id::<T>(d),
+        })
     }
     pub fn rid(&self, ty: u32, dy: u32) -> ResourceId {
         let d = self.dynmap[dy as usize];
@@ -728,7 +821,7 @@ impl Driver {
         let obs = self.observe();
         let shape: Vec<Value> = c.shape.iter().map(|m| json!({"k": m.k, "t": m.t})).collect();
         json!({"ev":"call","op":c.op,"targ":c.targ,"ty":ty,"dy":dy,"p":c.p,"gs":gs,"shape":shape,"out":o,"obs":obs,
-               "unwinding":unwinding,"rayon_worker":on_rayon_worker()})
+               "unwinding":unwinding,"rayon_worker":on_rayon_worker(),"id_ctor":self.last_ctor})
     }
 
     fn exec_op(&mut self, c: &CallSpec, ty: u32, dy: u32, gs: &mut Vec<u32>) -> Value {
@@ -742,11 +835,13 @@ impl Driver {
             }),
             "insert_by_id" => with_ty!(self.ci(c.targ), R => {
                 let v = R::make(new_ident(), p);
-                let (w, id) = (self.wm(), self.rid(ty, dy));
+                let id = self.rid_any(ty, dy);
+                let w = self.wm();
                 match guarded(move || w.insert_by_id(id, v)) { Ok(()) => out("unit", "", vec![]), Err(y) => out("panic", y, vec![]) }
             }),
             "remove" | "remove_by_id" => with_ty!(self.ci(c.targ), R => {
-                let (w, id) = (self.wm(), self.rid(ty, dy));
+                let id = self.rid_any(ty, dy);
+                let w = self.wm();
                 let r = if op == "remove" { guarded(move || w.remove::<R>()) } else { guarded(move || w.remove_by_id::<R>(id)) };
                 match r {
                     Ok(Some(v)) => { let (pp, i) = v.get(); let o = out("some", "", vec![self.val((v.tag(), pp, i))]); drop(v); o }
@@ -773,7 +868,8 @@ impl Driver {
                 }
             }),
             "get_mut_raw" => {
-                let (w, id) = (self.wm(), self.rid(ty, dy));
+                let id = self.rid_any(ty, dy);
+                let w = self.wm();
                 let r = guarded(move || {
                     w.get_mut_raw(id).map(|r| {
                         let seen = read_dyn(&*r);
@@ -795,13 +891,15 @@ impl Driver {
                 match guarded(move || w.has_value::<R>()) { Ok(b) => out(if b { "true" } else { "false" }, "", vec![]), Err(y) => out("panic", y, vec![]) }
             }),
             "has_value_raw" => {
-                let (w, id) = (self.w(), self.rid(ty, dy));
+                let id = self.rid_any(ty, dy);
+                let w = self.w();
                 match guarded(move || w.has_value_raw(id)) { Ok(b) => out(if b { "true" } else { "false" }, "", vec![]), Err(y) => out("panic", y, vec![]) }
             }
             "fetch" | "try_fetch" | "fetch_mut" | "try_fetch_mut" | "try_fetch_by_id" | "try_fetch_mut_by_id" => {
                 gs.clear();
                 let matching = c.targ == ty;
-                let (w, id) = (self.w(), self.rid(ty, dy));
+                let id = self.rid_any(ty, dy);
+                let w = self.w();
                 let kind = if op.contains("mut") { 'w' } else { 'r' };
                 let r: Res<Option<Box<dyn AnyGuard>>> = with_ty!(self.ci(c.targ), R => match op {
                     "fetch" => guarded(move || Some(Box::new(w.fetch::<R>()) as Box<dyn AnyGuard>)),
